@@ -436,6 +436,7 @@ def write_replay(mod, case, res, notes, tier, base_seed, minimise_runs):
     blob = dict(property=mod.ID, kind=res['kind'], message=res['message'], tier=tier,
                 base_seed=base_seed, case=case, tape=res['tape'], notes=notes,
                 digest=res['digest'], minimise_runs=minimise_runs, repo=repo_fingerprint(),
+                hashseed=os.environ.get('PYTHONHASHSEED', ''),
                 detail=res.get('detail'))
     h = hashlib.sha256(jdump(blob['case']).encode()).hexdigest()[:10]
     path = os.path.join(d, '%s-%s.json' % (mod.ID, h))
@@ -468,12 +469,23 @@ def replay_file(path):
 def confirm_replay(path, kind):
     """Replay in a fresh interpreter (different hash seed).  True when it fails the same way."""
     env = dict(os.environ)
-    env['PYTHONHASHSEED'] = '12345'
     env['VERIF_NO_EVIDENCE'] = '1'
-    p = subprocess.run([os.path.join(VERIF, 'check'), '--replay', path],
-                       capture_output=True, text=True, env=env, timeout=600)
-    ok = p.returncode == 1 and ('kind=%s' % kind) in p.stdout
-    return ok, p.stdout[-2000:] + p.stderr[-2000:]
+    out = ''
+    for hs in ('12345', None):
+        # first under another string-hash seed; if the violation needs the recorded
+        # seed (routes chosen through set iteration), the replay file pins it
+        if hs is None:
+            env.pop('PYTHONHASHSEED', None)
+        else:
+            env['PYTHONHASHSEED'] = hs
+            env['VERIF_KEEP_HASHSEED'] = '1'
+        p = subprocess.run([os.path.join(VERIF, 'check'), '--replay', path],
+                           capture_output=True, text=True, env=env, timeout=600)
+        env.pop('VERIF_KEEP_HASHSEED', None)
+        out = p.stdout[-2000:] + p.stderr[-2000:]
+        if p.returncode == 1 and ('kind=%s' % kind) in p.stdout:
+            return True, out
+    return False, out
 
 
 # ---------------------------------------------------------------------------
@@ -698,6 +710,14 @@ def main_check(cid, tier, base_seed, jobs=None):
 
 
 def main_replay(path):
+    blob0 = json.load(open(path))
+    want = str(blob0.get('hashseed', '') or '')
+    if want and os.environ.get('PYTHONHASHSEED', '') != want and not os.environ.get('VERIF_KEEP_HASHSEED'):
+        # exact replay needs the interpreter string-hash seed of the recording
+        env = dict(os.environ)
+        env['PYTHONHASHSEED'] = want
+        env['VERIF_KEEP_HASHSEED'] = '1'
+        return subprocess.call([os.path.join(VERIF, 'check'), '--replay', path], env=env)
     blob, res = replay_file(path)
     print('replay %s: status=%s kind=%s digest=%s (recorded %s)' % (
         path, res['status'], res['kind'], res['digest'], blob.get('digest')))
